@@ -132,7 +132,13 @@ def main():
                     # the database spells the -string pseudo type "atomic string"; in the C signature it is a C string
                     return 'char const *' if t['true_name'] == 'atomic string' else t['true_name']
                 ret = ctype(w['return_type']) if (w['flags'] & hasret) and w['return_type'] else 'void'
-                ps = ', '.join(ctype(q['type']) for q in w['parameters'])
+                if ret == 'char const *' and w['function'] in d['functions'] and re.match(r'\s*(?:static |virtual |inline )*char \*', d['functions'][w['function']]['prototype']):
+                    ret = 'char *'          # declared 'char *' / 'char *const': a string for the database, a mutable char pointer in the C signature
+                # "atomic string" covers every character pointer: a parameter declared 'char *' / 'char *const' in the header is a string for the
+                # scripting side and a (mutable) char pointer in the C signature: take the constness from the recorded prototype
+                proto = d['functions'][w['function']]['prototype'] if w['function'] in d['functions'] else ''
+                mutable = set(re.findall(r'(?<!const )\bchar \*(?:const )?(\w+)', proto))
+                ps = ', '.join(('char *' if (d['types'][q['type']]['true_name'] == 'atomic string' and q['name'] in mutable) else ctype(q['type'])) for q in w['parameters'])
                 decls.append('extern "C" %s %s(%s);' % (ret, w['name'], ps))
                 if not re.search(r'\b%s\s*\(' % re.escape(w['name']), code):
                     ck.spec_failure('undefined-wrapper', 'wrapper %s is listed in the database but not defined in the code' % w['name'], replay)
